@@ -41,6 +41,8 @@ def histories(tier, rng):
         H.append(("calls", memgen.history_calls(rng)))
     for w in [0, 1, 2, 126, 127, 128, 129, 200, 256, 1000]:
         for d in ([3, 40] if tier == "quick" else [3, 40, 300, 1000]):
+            if d * max(w, 1) > 40000:
+                continue   # the model's stack is a list: beyond this a history takes the evaluator minutes
             H.append(("deep", memgen.history_deep(rng, d, w)))
     for _ in range(120 * n):
         H.append(("random", memgen.history_random(rng, rng.choice([30, 80, 200, 400]))))
